@@ -223,7 +223,13 @@ class Inventory:
             coll = op_place(t["args"][0])
             ck = key_of(coll) if coll is not None else None
             iv = None
-            if re.search(r"array::<impl \[T; N\]>::map$", name) and ck:
+            a0 = t["args"][0]
+            if re.search(r"array::<impl \[T; N\]>::map$", name) and isinstance(a0, dict) and "const" in a0:
+                # a named constant array (`const REGS: [usize; 5] = [..]; REGS.map(f)`): its evaluated elements
+                cv = (self.facts.consts.get(a0["const"].get("path")) or {}).get("value")
+                if isinstance(cv, list) and cv and all(isinstance(x, int) and not isinstance(x, bool) for x in cv):
+                    iv = (min(cv), max(cv))
+            elif re.search(r"array::<impl \[T; N\]>::map$", name) and ck:
                 d = an.single.get(ck)
                 if d and d[2]["k"] == "agg" and d[2].get("ak") == "array":
                     ivs = [an.op_iv(st, o) for o in d[2]["ops"]]
